@@ -133,6 +133,8 @@ package zerolog
 //@ func newEvent(w, level) res
 //@   props C01 C03 C05 C06
 //@   arith int
+//@   flag initialises Event
+//@   flag replay newevent_stale
 //@   ensures res != nil
 //@   ensures lex(res.buf) == 0 && mode(res.buf) == OBJ_FIRST && stk(res.buf) == STK_OBJ && len(res.buf) == 1 && res.buf[0] == '{'
 //@   ensures [C03,C05] res.w == w && res.level == level && res.stack == false && res.skipFrame == 0 && len(res.ch) == 0
